@@ -964,6 +964,14 @@ class t2listing(object):
         return [fortran_float(line[fmt['values'][i]: fmt['values'][i+1]])
                 for i in range(nvals)] + [0.0] * (num_columns - nvals)
 
+    def update_row_format_TOUGH2(self, table, line):
+        """Extends the column positions of a table from a line that is longer than the
+        longest line the table had when it was set up (e.g. a generation table row that
+        prints more values at a later time than any row did at the first time)."""
+        fmt = table.row_format
+        if len(line.rstrip()) > fmt['values'][-1]:
+            fmt['values'] = self.parse_table_line(line, fmt['values'][0], table.column_name)
+
     def read_table_TOUGH2(self, tablename):
         table = self._table[tablename]
         ncols = table.num_columns
@@ -971,6 +979,7 @@ class t2listing(object):
         self.skiplines(table.header_skiplines)
         for skip in table.skiplines:
             line = self.readline()
+            self.update_row_format_TOUGH2(table, line)
             key = table.key_from_line(line)
             table[key] = self.read_table_line_TOUGH2(line, ncols, fmt)
             self.skiplines(skip)
@@ -1103,6 +1112,8 @@ class t2listing(object):
                                         self._file.readline()
                                     line = self.readline()
                                 index = lineindex
+                                if self.simulator != 'AUTOUGH2':
+                                    self.update_row_format_TOUGH2(self._table[tname], line)
                                 vals = self.read_table_line(line, ncols, fmt)
                                 valindex = self._table[tname]._col[colname]
                                 sgn = [1.,-1.][reverse]
